@@ -253,3 +253,18 @@ Lemma iter_S {A} n (f : A -> A) x : iter (S n) f x = f (iter n f x).
 Proof. reflexivity. Qed.
 Lemma iter_shift {A} n (f : A -> A) x : iter n f (f x) = f (iter n f x).
 Proof. induction n; cbn; auto. rewrite IHn. reflexivity. Qed.
+
+(* ---------- more algebra ---------- *)
+Lemma qpow2 x : qpow x 2 == x * x.
+Proof. unfold qpow. simpl. ring. Qed.
+Lemma dot_vadd_r a b c : length b = length c -> dot a (vadd b c) == dot a b + dot a c.
+Proof.
+  vunf. revert b c; induction a as [|x a IH]; intros [|y b] [|z c] H; lcbn; try discriminate; try ring.
+  rewrite IH by lia. ring.
+Qed.
+Lemma nth_app_unitv k x (l : vec) i : (i <= k)%nat -> nth i (unitv k x ++ l) 0 = nth i (unitv k x) 0.
+Proof. intros H. apply app_nth1. rewrite unitv_length. lia. Qed.
+Lemma nth_unitv_k k x : nth k (unitv k x) 0 = x.
+Proof. unfold unitv. rewrite nth_unit, Nat.eqb_refl. reflexivity. Qed.
+Lemma nth_unitv_lt k x j : (j < k)%nat -> nth j (unitv k x) 0 = 0.
+Proof. intros H. unfold unitv. rewrite nth_unit. replace (Nat.eqb j k) with false; auto. symmetry; apply Nat.eqb_neq; lia. Qed.
